@@ -18,7 +18,10 @@ _CLONE: Optional[types.ModuleType] = None
 def sym_run_module() -> types.ModuleType:
     """taskiq/cli/scheduler/run.py re-executed with the integer time model (once per process)."""
     global _WORLD, _CLONE
-    if _CLONE is None:
+    # re-executed for every path: module-level state of run.py (caches a change may introduce) must not leak between paths
+    if _WORLD is not None:
+        _WORLD.dispose()
+    if True:
         _WORLD = World()
         _CLONE = _WORLD.clone(
             "taskiq.cli.scheduler.run",
